@@ -68,7 +68,8 @@ def replay(ctx, path):
     r = json.load(open(path))["replay"]
     ctx.build()
     if r["kind"].startswith("spec-cases"):
-        f = os.path.join(ctx.scratch, "one.ndjson"); open(f, "w").write(json.dumps(r["case"]) + "\n")
+        f = os.path.join(ctx.scratch, "one.ndjson"); cs = r["case"] if isinstance(r["case"], list) else [r["case"]]     # a held frame and the case whose encoding changed it
+        open(f, "w").write("".join(json.dumps(c) + "\n" for c in cs))
         out = os.path.join(ctx.scratch, "one_res.ndjson")
         ctx.vh_ok(["c01-replay", f, out]); run_results(ctx, out, "replay")
     else:
